@@ -29,6 +29,7 @@ package control
 
 //@ func IsCurrentMoreThanOrEqualToDesired
 //@ props C01
+//@ replay ios_compare
 //@ ensures result == (ios_scaled(current, 10000000, true) >= ios_scaled(desired, 10000000, true))
 //@ pure
 
